@@ -1,0 +1,10 @@
+//go:build verif
+
+package types
+
+// Assumed contracts on the staking keeper behind the bridge module's StakingKeeper interface, read by
+// /verif/bin/govc. Comment-only: compiled only with -tags verif and adds no code.
+
+// GetAllValidators reads the staking store and returns the validators; it writes nothing.
+//@ func (sk StakingKeeper).GetAllValidators(ctx) (validators, err)
+//@ trusted
